@@ -92,7 +92,7 @@ Verdict soundProp(Ctx& c) {
   variants.push_back({emptied(g.G), false, "empty-data"});
   for (auto& var : variants) {
     const auto res = pbt::inChild([&] { return evalAccepted(c, var.G, text, syn, var.lazy, reported, libType, var.tag); }, 4);
-    if (res.status == pbt::ChildResult::TIMEOUT) { c.count("inconclusive-timeout"); continue; }
+    if (res.status == pbt::ChildResult::TIMEOUT || res.status == pbt::ChildResult::STARVED) { c.count("inconclusive-timeout"); continue; }
     if (res.status == pbt::ChildResult::CRASH) return pbt::fail("crash", std::string("[") + var.tag + "] evaluation of accepted '" + text + "' crashed: " + res.crashInfo);
     if (res.verdict.kind != Verdict::PASS) return res.verdict;
   }
@@ -144,7 +144,7 @@ Verdict binderProp(Ctx& c) {
   for (const bool emptyData : {false, true}) {
     const Gamma G2 = emptyData ? emptied(g.G) : g.G;
     const auto res = pbt::inChild([&] { return evalAccepted(c, G2, text, rl::Syntax::MATH, false, reported, libType, emptyData ? "empty-data" : "data"); }, 4);
-    if (res.status == pbt::ChildResult::TIMEOUT) { c.count("inconclusive-timeout"); continue; }
+    if (res.status == pbt::ChildResult::TIMEOUT || res.status == pbt::ChildResult::STARVED) { c.count("inconclusive-timeout"); continue; }
     if (res.status == pbt::ChildResult::CRASH) return pbt::fail("crash", std::string("evaluation of accepted '") + text + "' crashed: " + res.crashInfo);
     if (res.verdict.kind != Verdict::PASS) return res.verdict;
   }
